@@ -24,20 +24,171 @@ IT = "bempp_cl/api/linalg/iterative_solvers.py"
 DS = "bempp_cl/api/linalg/direct_solvers.py"
 
 
-def _branch_defs(fn, flag):
-    """{(branch, name): canonical value} for assignments in the `if <flag>:` / else branches."""
-    defs = roles.Defs(fn)
-    ifs = [s for s in fn.body if isinstance(s, ast.If) and isinstance(s.test, ast.Name) and s.test.id == flag]
-    if len(ifs) != 1:
-        raise AnalysisError("%s: `if %s:` split not found" % (fn.name, flag))
+def _branch_values(S, name, flag):
+    """{True/False: Store} of the definitions of `name` directly under `if <flag>:` / else."""
     out = {}
-    for br, body in (("strong", ifs[0].body), ("weak", ifs[0].orelse)):
-        for st in body:
-            if isinstance(st, ast.Assign) and isinstance(st.targets[0], ast.Name):
-                out[(br, st.targets[0].id)] = roles.canon(st.value, defs, commutative_mult=False).replace(" ", "")
-        guards = [s for s in body if isinstance(s, ast.If) and any(isinstance(x, ast.Raise) for x in s.body)]
-        out[(br, "__guard__")] = [unparse(g.test).replace(" ", "") for g in guards]
-    return out, ifs[0]
+    for s in S:
+        if s.op == "=" and isinstance(s.tnode, ast.Name) and s.tnode.id == name and len(s.guards) == 1 and s.guards[0][0] == flag:
+            if s.guards[0][1] in out:
+                return {}
+            out[s.guards[0][1]] = s
+    return out
+
+
+def iterative(ctx, m, fname, kind, solver, r_sys, r_call, r_res, r_ret):
+    fn = m.fn(fname)
+    p = arg_names(fn)
+    A, b = p[0], p[1]
+    need = {"tol", "maxiter", "use_strong_form", "return_residuals", "return_iteration_count"} | ({"restart"} if solver == "gmres" else set())
+    if not need <= set(p):
+        raise AnalysisError("%s: public parameters %s missing" % (fname, sorted(need - set(p))))
+    defs = roles.Defs(fn)
+    S = roles.stores(fn.body, defs, lv=False)
+    calls = [c for c in calls_in(fn) if unparse(c.func).endswith("linalg." + solver)]
+    if len(calls) != 1:
+        raise AnalysisError("%s: scipy %s call not found" % (fname, solver))
+    c = calls[0]
+    if len(c.args) != 2 or not all(isinstance(x, ast.Name) for x in c.args):
+        raise AnalysisError("%s: scipy %s is not called with two local names" % (fname, solver))
+    OP, RHS = c.args[0].id, c.args[1].id
+    ex = lambda src, line=c.lineno, **kw: roles.expect(src, defs, line, lv=False, A=A, B=b, **kw)
+    want = {
+        (True, OP): ex("A.strong_form()"), (False, OP): ex("A.weak_form()"),
+        (True, RHS): ex("B.coefficients") if kind == "single" else ex("coefficients_from_grid_functions_list(B)"),
+        (False, RHS): ex("B.projections(A.dual_to_range)") if kind == "single" else ex("projections_from_grid_functions_list(B, A.dual_to_range_spaces)"),
+    }
+    for nm, what in ((OP, "operator"), (RHS, "right-hand side")):
+        bv = _branch_values(S, nm, "use_strong_form")
+        for strong in (True, False):
+            got = bv[strong].value if strong in bv else None
+            r_sys.check(got == want[(strong, nm)], "%s: %s/%s" % (fname, "strong" if strong else "weak", what), IT, fname, bv[strong].node.lineno if strong in bv else c.lineno,
+                        "%s %s %s = %s" % (fname, "strong" if strong else "weak", what, got),
+                        "%s form hands scipy the %s `%s`, expected `%s`" % ("strong" if strong else "weak", what, got, want[(strong, nm)]))
+    if kind == "single":
+        guard = ex("not A.range.is_compatible(B.space)")
+        g = [n for n in ast.walk(fn) if isinstance(n, ast.If) and any(isinstance(x, ast.Raise) for x in n.body) and roles.canon(n.test, defs).replace(" ", "") == guard]
+        inside = [n for n in g if any(n in ast.walk(i) for i in ast.walk(fn) if isinstance(i, ast.If) and roles.canon(i.test, defs) == "use_strong_form" and n in i.body)]
+        r_sys.check(len(inside) == 1, "%s: strong-form guard" % fname, IT, fname, c.lineno, "%s strong form guard" % fname,
+                    "strong form is used without raising when A.range is not compatible with the space of b")
+    # scipy call: tolerance, restart, maxiter and the callback object
+    kws = {k.arg: roles.canon(k.value, defs).replace(" ", "") for k in c.keywords}
+    cbn = next((k.value for k in c.keywords if k.arg == "callback"), None)
+    want_cb = ex("IterationCounter(return_residuals, True, OP, RHS)", OP=OP, RHS=RHS) if solver == "cg" else ex("IterationCounter(return_residuals)")
+    okc = kws.get("rtol") == "tol" and kws.get("maxiter") == "maxiter" and (solver == "cg" or kws.get("restart") == "restart") and isinstance(cbn, ast.Name) and kws.get("callback") == want_cb
+    r_call.check(okc, fname, IT, fname, c.lineno, "%s scipy call %s" % (fname, kws),
+                 "scipy.%s receives %s (expected rtol=tol, maxiter=maxiter%s, callback=%s)" % (solver, kws, "" if solver == "cg" else ", restart=restart", want_cb))
+    # returns: first element built from the solver's vector in A's domain space(s); status, residuals and count of the same call / callback
+    rets = sorted((s for s in S if s.op == "return"), key=lambda s: s.node.lineno)
+    res_want = ex("GridFunction(A.domain, coefficients=CALL[0].ravel())", CALL=c) if kind == "single" else ex("grid_function_list_from_coefficients(CALL[0].ravel(), A.domain_spaces)", CALL=c)
+    res_got = None
+    if rets and isinstance(rets[0].vnode, ast.Tuple):
+        res_got = roles.canon(rets[0].vnode.elts[0], defs).replace(" ", "")
+    r_res.check(res_got == res_want, fname, IT, fname, rets[0].node.lineno if rets else fn.lineno, "%s result %s" % (fname, (res_got or "")[:60]),
+                "the returned solution is `%s`, expected `%s`" % ((res_got or "")[:200], res_want[:200]))
+    CB = cbn.id if isinstance(cbn, ast.Name) else "callback"
+    shape = lambda src: ex(src, rets[-1].node.lineno if rets else c.lineno, R=res_want_node(rets), CALL=c, CB=CB)
+
+    def res_want_node(rs):
+        return rs[0].vnode.elts[0] if rs and isinstance(rs[0].vnode, ast.Tuple) else ast.Name(id="_", ctx=ast.Load())
+
+    both = {ex("return_residuals and return_iteration_count"), ex("return_iteration_count and return_residuals")}
+    want_rets = [(both, "(R, CALL[1], CB.residuals, CB.count)"), ({"return_residuals"}, "(R, CALL[1], CB.residuals)"), ({"return_iteration_count"}, "(R, CALL[1], CB.count)"), (None, "(R, CALL[1])")]
+    ok = len(rets) == 4
+    msg = "%d return statements (expected 4)" % len(rets)
+    if ok:
+        for s, (g, src) in zip(rets, want_rets):
+            gok = (s.guards == ()) if g is None else (len(s.guards) == 1 and s.guards[0][1] is True and s.guards[0][0] in g)
+            if not gok or s.value != shape(src):
+                ok = False
+                msg = "return at line %d is `%s` under %s; expected `%s` under %s" % (s.node.lineno, s.value[:120], s.guards, src, sorted(g) if g else "no condition")
+                break
+    r_ret.check(ok, fname, IT, fname, fn.lineno, "%s return shapes" % fname, msg)
+
+
+def counter(ctx, m):
+    r_cg = ctx.rule("CG-RESIDUAL", "IterationCounter: CG residual is rhs - operator * x of the objects passed in; counter and residual list are what the properties return", 1)
+    ic = m.fn("IterationCounter.__call__")
+    init = m.fn("IterationCounter.__init__")
+    di, dc = roles.Defs(init), roles.Defs(ic)
+    pi = arg_names(init)
+    Si = {s.target: s.value for s in roles.stores(init.body, di, lv=False) if s.op == "=" and not s.guards}
+    need = {"store_residuals", "iteration_is_cg", "operator", "rhs"}
+    ok_init = need <= set(pi) and Si.get("self._operator") == "operator" and Si.get("self._rhs") == "rhs" and Si.get("self._iteration_is_cg") == "iteration_is_cg" \
+        and Si.get("self._store_residuals") == "store_residuals" and Si.get("self._count") == "0" and Si.get("self._residuals") == "[]"
+    Sc = roles.stores(ic.body, dc, lv=False)
+    x = arg_names(ic)[1]
+    cnt = [s for s in Sc if s.op == "Add=" and s.target == "self._count" and s.value == "1" and not s.guards and not s.loops]
+    app = [s for s in Sc if s.op == "call" and unparse(s.vnode.func) == "self._residuals.append" and s.guards == (("self._store_residuals", True),)]
+    ok_call = len(cnt) == 1 and len(app) == 1
+    why = "count/append bookkeeping"
+    if ok_call:
+        arg = app[0].vnode.args[0]
+        inner = arg.args[0] if isinstance(arg, ast.Call) and unparse(arg.func).endswith("linalg.norm") and len(arg.args) == 1 else None
+        ok_call = isinstance(inner, ast.Name)
+        if ok_call:
+            br = {s.guards[-1][1]: s.value for s in Sc if s.op == "=" and isinstance(s.tnode, ast.Name) and s.tnode.id == inner.id and len(s.guards) == 2 and s.guards[-1][0] == "self._iteration_is_cg"}
+            cgres = {roles.canon(ast.parse("self._rhs - self._operator * %s" % x, mode="eval").body, dc, commutative_mult=False).replace(" ", ""),
+                     roles.canon(ast.parse("self._rhs - self._operator @ %s" % x, mode="eval").body, dc, commutative_mult=False).replace(" ", "")}
+            got_cg = [roles.canon(s.vnode, dc, commutative_mult=False).replace(" ", "") for s in Sc if s.op == "=" and isinstance(s.tnode, ast.Name) and s.tnode.id == inner.id and len(s.guards) == 2 and s.guards[-1] == ("self._iteration_is_cg", True)]
+            ok_call = len(got_cg) == 1 and got_cg[0] in cgres and br.get(False) == x
+            why = "residual under CG is `%s` (expected rhs - operator * x), otherwise `%s` (expected the callback argument)" % (got_cg, br.get(False))
+    props = True
+    for prop, slot in (("IterationCounter.count", "self._count"), ("IterationCounter.residuals", "self._residuals")):
+        f = m.fn(prop)
+        rs = [s for s in roles.stores(f.body, roles.Defs(f), lv=False) if s.op == "return"]
+        props = props and len(rs) == 1 and rs[0].value == slot
+    r_cg.check(ok_init and ok_call and props, "IterationCounter", IT, "IterationCounter.__call__", ic.lineno, "iteration counter bookkeeping",
+               "constructor stores its arguments: %s; per-iteration bookkeeping: %s (%s); properties return the counters: %s" % (ok_init, ok_call, why, props))
+
+
+def direct(ctx):
+    dm = ctx.repo.mod(DS)
+    r_lu = ctx.rule("LU-PATHS", "lu(): projections onto the dual space(s), dense weak form, solution returned in the domain space(s); compute_lu_factors factors the same matrix", 3)
+    fn = dm.fn("lu")
+    p = arg_names(fn)
+    A, b = p[0], p[1]
+    if "lu_factor" not in p:
+        raise AnalysisError("lu: public parameter lu_factor missing")
+    defs = roles.Defs(fn)
+    S = roles.stores(fn.body, defs, lv=False)
+    ln = fn.body[-1].end_lineno
+    ex = lambda src, **kw: roles.expect(src, defs, ln, lv=False, A=A, B=b, **kw)
+    blocked = ex("isinstance(A, BlockedOperatorBase)")
+    have = {s.guards for s in S if s.op == "return"}
+    if {g[0] for gs in have for g in gs[:1]} != {blocked}:
+        raise AnalysisError("lu: blocked/single split on isinstance(A, BlockedOperatorBase) not found")
+    for kind, flag in (("blocked", True), ("single", False)):
+        vec = "projections_from_grid_functions_list(B, A.dual_to_range_spaces)" if kind == "blocked" else "B.projections(A.dual_to_range)"
+        rets = [s for s in S if s.op == "return" and s.guards == ((blocked, flag),)]
+        gv = None
+        ok_ret = False
+        gr = None
+        if len(rets) == 1:
+            v = rets[0].vnode
+            # the solution variable: argument of the result constructor
+            if kind == "single" and isinstance(v, ast.Call) and unparse(v.func) == "GridFunction" and len(v.args) == 1 and roles.canon(v.args[0], defs).replace(" ", "") == ex("A.domain"):
+                sol = next((k.value for k in v.keywords if k.arg == "coefficients"), None)
+            elif kind == "blocked" and isinstance(v, ast.Call) and unparse(v.func) == "grid_function_list_from_coefficients" and len(v.args) == 2 and roles.canon(v.args[1], defs).replace(" ", "") == ex("A.domain_spaces"):
+                sol = v.args[0]
+            else:
+                sol = None
+            gr = rets[0].value
+            if isinstance(sol, ast.Name):
+                br = {s.guards[-1][1]: s.value for s in S if s.op == "=" and isinstance(s.tnode, ast.Name) and s.tnode.id == sol.id and len(s.guards) == 2 and s.guards[0] == (blocked, flag)
+                      and s.guards[1][0] in (ex("lu_factor is not None"),)}
+                gv = br
+                ok_ret = br.get(True) == ex("lu_solve(lu_factor, %s)" % vec) and br.get(False) == ex("solve(A.weak_form().to_dense(), %s)" % vec)
+        r_lu.check(ok_ret, "lu %s solve/return" % kind, DS, "lu", rets[0].node.lineno if rets else fn.lineno, "lu %s returns %s" % (kind, gr),
+                   "the %s path returns `%s` with the solution defined as %s; expected the result in A's domain space(s) from lu_solve(lu_factor, rhs) / solve(dense weak form, rhs) with rhs = %s" % (kind, gr, gv, vec))
+    cf = dm.fn("compute_lu_factors")
+    cd = roles.Defs(cf)
+    rv = [s for s in roles.stores(cf.body, cd, lv=False) if s.op == "return"]
+    am = ctx.repo.mod("bempp_cl/api/__init__.py")
+    okm = len(rv) == 1 and rv[0].value == roles.expect("lu_factor(as_matrix(A.weak_form()))", cd, cf.body[-1].lineno, lv=False, A=arg_names(cf)[0])
+    if am.has_fn("as_matrix"):
+        f = am.fn("as_matrix")
+        okm = okm and any(isinstance(n, ast.Call) and isinstance(n.func, ast.Attribute) and n.func.attr == "to_dense" for n in ast.walk(f))
+    r_lu.check(okm, "compute_lu_factors", DS, "compute_lu_factors", cf.lineno, "compute_lu_factors returns " + (rv[0].value if rv else ""), "LU factors are not computed from the dense weak form that lu() solves with")
 
 
 def run(ctx):
@@ -46,91 +197,8 @@ def run(ctx):
     r_call = ctx.rule("SOLVER-CALL", "scipy receives (A_op, b_vec), rtol=tol, maxiter (and restart) and the callback object whose results are returned", 3)
     r_res = ctx.rule("SOLVER-RESULT", "solutions are built from the solver's vector in A's domain space(s)", 3)
     r_ret = ctx.rule("SOLVER-RETURNS", "the four return shapes (with/without residuals and iteration count) agree across the iterative paths", 3)
-    table = {
-        "cg": ("single", "cg"), "_gmres_single_op_imp": ("single", "gmres"), "_gmres_block_op_imp": ("blocked", "gmres"),
-    }
-    shapes = {}
-    for fname, (kind, solver) in table.items():
-        fn = m.fn(fname)
-        p = arg_names(fn)
-        A, b = p[0], p[1]
-        br, ifnode = _branch_defs(fn, "use_strong_form")
-        exp = {
-            ("strong", "A_op"): "%s.strong_form()" % A, ("weak", "A_op"): "%s.weak_form()" % A,
-            ("strong", "b_vec"): ("%s.coefficients" % b) if kind == "single" else "coefficients_from_grid_functions_list(%s)" % b,
-            ("weak", "b_vec"): ("%s.projections(%s.dual_to_range)" % (b, A)) if kind == "single" else "projections_from_grid_functions_list(%s,%s.dual_to_range_spaces)" % (b, A),
-        }
-        for key, want in exp.items():
-            got = br.get(key)
-            r_sys.check(got == want, "%s: %s/%s" % (fname, key[0], key[1]), IT, fname, ifnode.lineno, "%s %s %s = %s" % (fname, key[0], key[1], got),
-                        "%s form uses %s = `%s`, expected `%s`" % (key[0], key[1], got, want))
-        if kind == "single":
-            g = br.get(("strong", "__guard__"), [])
-            r_sys.check(any(x == "not%s.range.is_compatible(%s.space)" % (A, b) for x in g), "%s: strong-form guard" % fname, IT, fname, ifnode.lineno, "%s strong form guard %s" % (fname, g),
-                        "strong form is used without checking that A.range is compatible with the space of b")
-        # scipy call
-        defs = roles.Defs(fn)
-        calls = [c for c in calls_in(fn) if unparse(c.func) == "scipy.sparse.linalg." + solver]
-        if len(calls) != 1:
-            raise AnalysisError("%s: scipy %s call not found" % (fname, solver))
-        c = calls[0]
-        kws = {k.arg: unparse(k.value) for k in c.keywords}
-        okc = [unparse(a) for a in c.args] == ["A_op", "b_vec"] and kws.get("rtol") == "tol" and kws.get("maxiter") == "maxiter" and kws.get("callback") == "callback" \
-            and (solver == "cg" or kws.get("restart") == "restart")
-        cb = [s for s in fn.body if isinstance(s, ast.Assign) and unparse(s.targets[0]) == "callback"]
-        cbv = unparse(cb[0].value).replace(" ", "") if cb else None
-        want_cb = "IterationCounter(return_residuals,True,A_op,b_vec)" if solver == "cg" else "IterationCounter(return_residuals)"
-        r_call.check(okc and cbv == want_cb, fname, IT, fname, c.lineno, "%s scipy call %s %s callback=%s" % (fname, [unparse(a) for a in c.args], kws, cbv),
-                     "scipy.%s is called with %s %s and callback `%s` (expected `%s`)" % (solver, [unparse(a) for a in c.args], kws, cbv, want_cb))
-        # result construction
-        res = [s for s in fn.body if isinstance(s, ast.Assign) and unparse(s.targets[0]) == "res_fun"]
-        got = roles.canon(res[0].value, defs).replace(" ", "") if res else None
-        sol = "scipy.sparse.linalg.%s(" % solver
-        want = ("GridFunction(%s.domain,coefficients=" % A) if kind == "single" else "grid_function_list_from_coefficients("
-        okr = got is not None and got.startswith(want) and (sol in got) and "[0].ravel()" in got and (kind == "single" or got.endswith(",%s.domain_spaces)" % A))
-        r_res.check(okr, fname, IT, fname, res[0].lineno if res else fn.lineno, "%s result %s" % (fname, (got or "")[:60]), "result is `%s`" % (got or "")[:160])
-        rets = [unparse(s.value).replace(" ", "") for s in sorted((x for x in ast.walk(fn) if isinstance(x, ast.Return) and x.value is not None), key=lambda x: x.lineno)]
-        conds = [unparse(s.test).replace(" ", "") for s in fn.body if isinstance(s, ast.If) and any(isinstance(x, ast.Return) for x in s.body)]
-        shapes[fname] = (rets, conds)
-    ref = (["(res_fun,info,callback.residuals,callback.count)", "(res_fun,info,callback.residuals)", "(res_fun,info,callback.count)", "(res_fun,info)"],
-           ["return_residualsandreturn_iteration_count", "return_residuals", "return_iteration_count"])
-    for fname, (rets, conds) in shapes.items():
-        r_ret.check(rets == ref[0] and conds == ref[1], fname, IT, fname, m.fn(fname).lineno, "%s return shapes %s" % (fname, rets), "return tuples are %s under %s" % (rets, conds))
-    # CG residual uses the operator and rhs it was given
-    r_cg = ctx.rule("CG-RESIDUAL", "IterationCounter: CG residual is rhs - operator * x of the objects passed in; counter and residual list are what the properties return", 1)
-    ic = m.fn("IterationCounter.__call__")
-    s = unparse(ic).replace(" ", "")
-    init = unparse(m.fn("IterationCounter.__init__")).replace(" ", "")
-    okc = ("res=self._rhs-self._operator*x" in s and "self._count+=1" in s and "self._residuals.append(_np.linalg.norm(res))" in s
-           and "self._operator=operator" in init and "self._rhs=rhs" in init and "self._iteration_is_cg=iteration_is_cg" in init
-           and unparse(m.fn("IterationCounter.count")).replace(" ", "").endswith("returnself._count") and unparse(m.fn("IterationCounter.residuals")).replace(" ", "").endswith("returnself._residuals"))
-    r_cg.check(okc, "IterationCounter", IT, "IterationCounter.__call__", ic.lineno, "iteration counter bookkeeping", "the callback's residual/count bookkeeping changed shape")
-    # direct solvers
-    dm = ctx.repo.mod(DS)
-    r_lu = ctx.rule("LU-PATHS", "lu(): projections onto the dual space(s), dense weak form, solution returned in the domain space(s); compute_lu_factors factors the same matrix", 5)
-    fn = dm.fn("lu")
-    p = arg_names(fn)
-    A, b = p[0], p[1]
-    ifs = [s for s in fn.body if isinstance(s, ast.If) and "BlockedOperatorBase" in unparse(s.test)]
-    if len(ifs) != 1:
-        raise AnalysisError("lu: blocked/single split not found")
-    for kind, body in (("blocked", ifs[0].body), ("single", ifs[0].orelse)):
-        shim = ast.FunctionDef(name="lu", args=fn.args, body=body, decorator_list=[], lineno=fn.lineno)
-        vec = [s for s in body if isinstance(s, ast.Assign) and unparse(s.targets[0]) == "vec"]
-        gv = unparse(vec[0].value).replace(" ", "") if vec else None
-        wv = "%s.projections(%s.dual_to_range)" % (b, A) if kind == "single" else "projections_from_grid_functions_list(%s,%s.dual_to_range_spaces)" % (b, A)
-        src = unparse(shim).replace(" ", "")
-        oks = "mat=%s.weak_form().to_dense()" % A in src and "sol=solve(mat,vec)" in src and "sol=lu_solve(lu_factor,vec)" in src and "iflu_factorisnotNone:" in src
-        ret = [s for s in body if isinstance(s, ast.Return)]
-        gr = unparse(ret[0].value).replace(" ", "") if ret else None
-        wr = "GridFunction(%s.domain,coefficients=sol)" % A if kind == "single" else "grid_function_list_from_coefficients(sol,%s.domain_spaces)" % A
-        r_lu.check(gv == wv, "lu %s rhs" % kind, DS, "lu", vec[0].lineno if vec else fn.lineno, "lu %s rhs %s" % (kind, gv), "right-hand side is `%s`, expected `%s`" % (gv, wv))
-        r_lu.check(oks and gr == wr, "lu %s solve/return" % kind, DS, "lu", ret[0].lineno if ret else fn.lineno, "lu %s returns %s" % (kind, gr), "solve/return path is `%s` (expected `%s`)" % (gr, wr))
-    cf = dm.fn("compute_lu_factors")
-    rv = unparse([s for s in cf.body if isinstance(s, ast.Return)][0].value).replace(" ", "")
-    am = ctx.repo.mod("bempp_cl/api/__init__.py")
-    okm = rv == "lu_factor(as_matrix(%s.weak_form()))" % arg_names(cf)[0]
-    if am.has_fn("as_matrix"):
-        okm = okm and "to_dense" in unparse(am.fn("as_matrix"))
-    r_lu.check(okm, "compute_lu_factors", DS, "compute_lu_factors", cf.lineno, "compute_lu_factors returns " + rv, "LU factors are computed from `%s`, not from the dense weak form lu() solves with" % rv)
+    for fname, (kind, solver) in {"cg": ("single", "cg"), "_gmres_single_op_imp": ("single", "gmres"), "_gmres_block_op_imp": ("blocked", "gmres")}.items():
+        iterative(ctx, m, fname, kind, solver, r_sys, r_call, r_res, r_ret)
+    counter(ctx, m)
+    direct(ctx)
     c14.packing(ctx)
